@@ -13,9 +13,12 @@
     - risers: over ANY sequence of rows the riser column of a multi-line highlight is a block of
       non-bars, then a contiguous block of bars, then blanks; it starts with the row carrying the
       start mark and ends with the row carrying the end mark.
-    Not modelled (checked by the harness on the real strings): coloured == plain once escapes are
-    stripped, owned == borrowed. *)
-From Tephra Require Import Render RenderFacts.
+    - colour: the coloured rendering is a second model (theories/RenderColor.v), transcribed from the
+      [color_enabled] branches and compared byte for byte with the real escape-coded output; the plain
+      rendering denotes exactly the characters of the coloured rendering with its styles removed, one
+      fails exactly when the other does, and source characters and line breaks never stand inside a style.
+    Not modelled (checked by the harness on the real strings): owned == borrowed. *)
+From Tephra Require Import Render RenderFacts RenderColor RenderColorFacts.
 
 Theorem C16_gutter_one_column :
   forall end_line l, l <= end_line ->
@@ -88,6 +91,40 @@ Theorem C16_riser_transitions :
   /\ riser h l RUnused a = ([], RUnused).
 Proof. exact riser_transitions. Qed.
 Print Assumptions C16_riser_transitions.
+
+(** the plain rendering equals the coloured rendering with escape codes removed: [strip] drops the styles,
+    [dens] gives a row of cells its characters; [rmap] applies to a rendering that succeeded and keeps a
+    failure as it is, so the two renderings also fail together *)
+Theorem C16_plain_is_coloured_without_styles :
+  forall src cd,
+  rmap (fun cells => dens (strip cells)) (cd_render_c src cd) = rmap dens (cd_render src cd).
+Proof. exact colour_strip_plain. Qed.
+Print Assumptions C16_plain_is_coloured_without_styles.
+
+Theorem C16_colour_never_styles_source :
+  forall src cd cells, cd_render_c src cd = Ok cells ->
+  Forall (fun c => match c with CS _ (OSrc _) | CS _ ONl => False | _ => True end) cells.
+Proof. exact colour_never_styles_source. Qed.
+Print Assumptions C16_colour_never_styles_source.
+
+(** non-vacuity: a coloured report with a two-line highlight really contains styled cells, and stripping them
+    gives the characters of the plain report *)
+Example C16_colour_example :
+  let t := [Ch 1 1 1; Lf; Ch 1 1 2] in
+  let src := mksource t None {| le := LE_Lf; tabw := 4 |} (mkpos 0 0 0) in
+  let sp := mkspan (mkpos 0 0 0) (mkpos 3 1 1) in
+  match sd_new src sp false [mkhl sp 3 MError] with
+  | Ok sd =>
+    let cd := mkcd 1 MError true [sd] in
+    match cd_render_c src cd, cd_render src cd with
+    | Ok c, Ok p => existsb (fun x => match x with CS _ _ => true | CP _ => false end) c = true
+                    /\ dens (strip c) = dens p /\ 40 <= length (dens p)
+    | _, _ => False
+    end
+  | _ => False
+  end.
+Proof. vm_compute. repeat split. repeat constructor. Qed.
+Print Assumptions C16_colour_example.
 
 (** the powers of ten: the gutter is as wide as the end line's number *)
 Example C16_example :
